@@ -148,7 +148,7 @@ CHECKS = {
             'on any instance and after any visiting order; inspection shows the last produced value and does not advance it; leaving a context restores '
             'the time; pop restores what inspection showed at the push.',
             'explicit-state BFS over operation histories of the real code vs. a (generator, seed, time) table',
-            BASE_NOTE + ' Times are kept >= 0 (the cache uses -1 as its "never produced" sentinel: reading at time -1 before any read raises, noted in DESIGN.md).'),
+            BASE_NOTE + ' Times range over -1..3.'),
     'C20': ('exploration', 'DESIGN.md §3 C20',
             'For four class shapes (default constructor, positional+keyword custom constructor, keyword whose signature default differs from the '
             'Parameter default, nested Parameterized values) every listed value of every parameter (negative/huge ints, +-inf, escapes, bytes, None, '
